@@ -462,7 +462,7 @@ impl Prop for C11 {
     fn cases(&self, tier: Tier) -> u64 {
         match tier {
             Tier::Quick => 40_000,
-            Tier::Thorough => 1_600_000,
+            Tier::Thorough => 400_000,
         }
     }
 
